@@ -871,6 +871,10 @@ impl Machine {
                 let v = self.expr(a, env)?;
                 Ok(self.new_cell(ty.clone(), v))
             }
+            E::MutInf(ty, a) => {
+                let v = self.expr(a, env)?;
+                Ok(self.new_cell(Some(ty.clone()), v))
+            }
             E::Lambda(params, ret, body) => Ok(V::Fun(Rc::new(FunV::Closure {
                 params: params.clone(),
                 ret: ret.clone(),
